@@ -15,11 +15,12 @@ FREE_NAMES = ['B_z', 'a9', 'B_10', 'b_2', 'Zeta', 'beta', 'ASC_1', 'asc_10', '_b
 
 
 class DGen(Gen):
-    def __init__(self, rng, max_depth=4, share_p=0.15, p_powc2=0.05, p_fixed=0.25, n_names=4):
+    def __init__(self, rng, max_depth=4, share_p=0.15, p_powc2=0.05, p_fixed=0.2, n_names=4, p_replin=0.04):
         super().__init__(rng, variables=True, max_depth=max_depth, share_p=share_p)
         self.nobeta = 0
         self.p_powc2 = p_powc2
         self.p_fixed = p_fixed
+        self.p_replin = p_replin
         self.names = rng.sample(FREE_NAMES, n_names)
         # the engine refuses to differentiate any formula containing BelongsTo (even over data only)
         self.exclude = {'Belongs'}
@@ -37,6 +38,14 @@ class DGen(Gen):
         if positive and not b['positive']:
             return None
         return self.node(['Beta', name, b['fixed']])
+
+    def leaf_real(self):
+        r = self.rng.random()
+        if r < 0.2:
+            return self.num()
+        if r < 0.7:
+            return self.beta() or self.num()
+        return self.var()
 
     def maybe_shared(self, kind):
         if self.nobeta:
@@ -88,11 +97,15 @@ class DGen(Gen):
         if r < 0.7:
             return self.node(['Un', 'UMinus'], [self.small(d - 1)], 'small')
         if r < 0.82 and not self.nobeta:
-            terms = []
+            terms, used = [], set()
+            rep = self.rng.random() < self.p_replin
             for _ in range(self.rng.randint(1, 3)):
                 b = self.beta() or self.beta() or self.beta()
                 if b is None:
                     break
+                if b['h'][1] in used and not rep:
+                    continue      # the same parameter in two terms: known finding on the gradient, kept rare
+                used.add(b['h'][1])
                 terms += [b, self.var()]
             if terms:
                 return self.node(['LinUtil'], terms, 'small')
@@ -192,11 +205,15 @@ def free_names(tree, acc=None):
     return acc
 
 
-def gen_case(rng, max_depth=4, n_rows=3, p_powc2=0.05):
+def gen_case(rng, max_depth=4, n_rows=3, p_powc2=0.05, p_replin=0.04):
     """tree with 1..5 free parameters (scrambled names), the parameter table and the data rows"""
     for _ in range(50):
-        g = DGen(rng, max_depth=max_depth, p_powc2=p_powc2, n_names=rng.choice([1, 2, 2, 3, 3, 4, 5, 6]))
+        g = DGen(rng, max_depth=max_depth, p_powc2=p_powc2, p_replin=p_replin, n_names=rng.choice([1, 2, 2, 3, 3, 4, 5, 6]))
         tree = g.real(max_depth)
+        if rng.random() < 0.5:
+            # two sub-formulas combined: more parameters per case
+            other = g.real(max_depth - 1)
+            tree = g.node(['Bin', rng.choice(['Plus', 'Minus', 'Times'])], [tree, other], 'real')
         fr = free_names(tree)
         if not fr:
             # make it depend on at least one free parameter
@@ -248,19 +265,33 @@ def has_powc2(tree):
     return any(has_powc2(k) for k in tree['k'])
 
 
-def rewrite_powc2(tree, cache=None):
-    """x**2 -> x*x (the same object twice); sharing preserved through 'sid'"""
+def has_replin(tree):
+    """a bioLinearUtility in which one parameter occurs in two terms"""
+    h = tree['h']
+    if h[0] == 'LinUtil':
+        bs = [k['h'][1] for k in tree['k'][0::2]]
+        if len(set(bs)) < len(bs):
+            return True
+    return any(has_replin(k) for k in tree['k'])
+
+
+def rewrite_powc2(tree, cache=None, powc2=True, linutil=False):
+    """x**2 -> x*x (the same object twice) and / or bioLinearUtility -> bioMultSum of products;
+    sharing preserved through 'sid'"""
     cache = cache if cache is not None else {}
     sid = tree.get('sid')
     if sid is not None and sid in cache:
         return cache[sid]
     h = tree['h']
-    ks = [rewrite_powc2(k, cache) for k in tree['k']]
-    if h[0] == 'PowC' and val(h[1:3]) == 2.0:
+    ks = [rewrite_powc2(k, cache, powc2, linutil) for k in tree['k']]
+    if linutil and h[0] == 'LinUtil':
+        n = {'h': ['MultSum'], 'k': [{'h': ['Bin', 'Times'], 'k': [ks[i], ks[i + 1]]} for i in range(0, len(ks), 2)]}
+    elif powc2 and h[0] == 'PowC' and val(h[1:3]) == 2.0:
         a = ks[0]
         if 'sid' not in a and a['k']:
             a = dict(a)
-            a['sid'] = 10_000 + len(cache)
+            cache['_ctr'] = cache.get('_ctr', 0) + 1
+            a['sid'] = 1_000_000 + cache['_ctr']
         n = {'h': ['Bin', 'Times'], 'k': [a, a]}
     else:
         n = {'h': h, 'k': ks}
